@@ -173,7 +173,8 @@ Fixpoint char_loop (te : tyenv) (l : list pdesc) (nonStatic : list nat)
     match char_one te d isLast nonStatic with
     | None => Err EB_NOMATCH
     | Some s =>
-      let nonStatic' := if taints s then fl (f_out (s_flows s)) ++ nonStatic else nonStatic in
+      (* the outputs of a per-invocation provider, and the interfaces it may satisfy (Loose), are not static *)
+      let nonStatic' := if taints s then fl (f_out (s_flows s)) ++ d_loose d ++ nonStatic else nonStatic in
       match s_group s with
       | GStatic | GLiteral => char_loop te r nonStatic' (s :: accInit) accInvoke
       | GFinal | GRun => char_loop te r nonStatic' accInit (s :: accInvoke)
@@ -190,7 +191,7 @@ Fixpoint pretaint (te : tyenv) (l : list pdesc) : list nat :=
     let isLast := match r with [] => true | _ => false end in
     (if d_reorder d then
        match characterizeFunc te d (mkCC isLast true) with
-       | Some s => if group_eqb (s_group s) GRun then fl (f_out (s_flows s)) else []
+       | Some s => if group_eqb (s_group s) GRun then fl (f_out (s_flows s)) ++ d_loose d else []
        | None => []
        end
      else []) ++ pretaint te r
